@@ -51,9 +51,12 @@ def bo_graph(rng):
             bo += 1
             g.segs.append(cur)
             prev = cur
+    odd = rng.random() < 0.3      # a graph whose BO/NO tags use other valid spellings of the same integers (+0, 00, -0, 007)
     for s in g.segs:
         if rng.random() < 0.08:
             s["BO"], s["NO"] = -1, -1
+        if odd and rng.random() < 0.6:
+            s["BO_txt"], s["NO_txt"] = gen.noncanonical_int(rng, s["BO"]), gen.noncanonical_int(rng, s["NO"])
         if rng.random() < 0.25:
             # further user tags after the rGFA ones, including lower-case look-alikes of the tags sort reads
             s["extra"] = rng.sample(["bo:i:99", "no:i:7", "sn:Z:other", "sr:i:3", "XT:Z:a:b c", "x1:i:-5"], rng.randint(1, 3))
